@@ -67,3 +67,32 @@ def nontrivial(case):
     """A program is non-trivial if it contains a control transfer, a call or a container op."""
     s = json.dumps(case.get("ast"))
     return any(k in s for k in ('"for"', '"range"', '"call"', '"switch"', '"if"', '"func"'))
+
+
+def gen_family(cx, family, d, timeout=1500):
+    """Enumerate one program family of Grammar.tla with TLC; returns the list of ASTs (statement lists)."""
+    cfg = ('CONSTANTS Family = "%s"\n D = %d\nINIT Init\nNEXT Next\nINVARIANT Emit\nCHECK_DEADLOCK FALSE\n' % (family, d))
+    r = cx.tlc("GrammarGen", cfg_text=cfg, workers=4, name="gen_%s_%d" % (family, d), timeout=timeout, heap="6g")
+    cx.tlc_must_pass(r, "GrammarGen/" + family)
+    asts = [json.loads(s) for s in r.tuples("AST")]
+    if not asts:
+        raise vlib.Inconclusive("GrammarGen produced no programs for family %s" % family)
+    return asts
+
+
+def run_family(cx, lang, family, d, minimal=False):
+    """Enumerate, render, execute on the real pipeline; returns the case rows (with obs)."""
+    asts = gen_family(cx, family, d)
+    inp = cx.path("%s_%d.asts.ndjson" % (family, d))
+    vlib.write_ndjson(inp, [{"id": i, "ast": a, "hoist": hoists(a)} for i, a in enumerate(asts)])
+    out = cx.path("%s_%d.cases.ndjson" % (family, d))
+    cmd = [lang, "render", "-in", inp, "-out", out]
+    if minimal:
+        cmd.append("-min")
+    cx.run(cmd)
+    return vlib.read_ndjson(out), out
+
+
+def hoists(prog):
+    """Names of top-level named function statements (visible everywhere in the program)."""
+    return [st["f"]["name"] for st in prog if st.get("k") == "funcdecl" and st.get("hoisted")]
